@@ -110,11 +110,10 @@ Fixpoint find_case (n:string) (cases:list (string * list gstmt)) : option (list 
   | (c, ss) :: r => if String.eqb n c then Some ss else find_case n r
   end.
 
-Section Eval.
-Variable funcs : list (var * (list var * list gstmt)).
-Variable vars : list (var * gexpr).
+Definition gfundefs := list (var * (list var * list gstmt)).
+Definition gvardefs := list (var * gexpr).
 
-Fixpoint geval (n:nat) (env:genv) (e:gexpr) (t:trace) {struct n} : res gval :=
+Fixpoint geval (funcs:gfundefs) (vars:gvardefs) (n:nat) (env:genv) (e:gexpr) (t:trace) {struct n} : res gval :=
   match n with O => Fuel | S n =>
   match e with
   | GInt z => Done (GVInt z) t
@@ -129,116 +128,116 @@ Fixpoint geval (n:nat) (env:genv) (e:gexpr) (t:trace) {struct n} : res gval :=
           | Some (ps, body) => Done (GVClo [] ps body) t
           | None =>
               match lookup x vars with
-              | Some init => geval n [] init t
+              | Some init => geval funcs vars n [] init t
               | None => Stuck "undefined name"
               end
           end
       end
   | GLib fn => Done (GVLib fn) t
   | GBin OAnd a b =>
-      doo va, t1 <- geval n env a t;
+      doo va, t1 <- geval funcs vars n env a t;
       match va with
-      | GVBool true => doo vb, t2 <- geval n env b t1;
+      | GVBool true => doo vb, t2 <- geval funcs vars n env b t1;
                        match vb with GVBool y => Done (GVBool y) t2 | _ => Stuck "&&: operand" end
       | GVBool false => Done (GVBool false) t1
       | _ => Stuck "&&: operand"
       end
   | GBin OOr a b =>
-      doo va, t1 <- geval n env a t;
+      doo va, t1 <- geval funcs vars n env a t;
       match va with
       | GVBool true => Done (GVBool true) t1
-      | GVBool false => doo vb, t2 <- geval n env b t1;
+      | GVBool false => doo vb, t2 <- geval funcs vars n env b t1;
                         match vb with GVBool y => Done (GVBool y) t2 | _ => Stuck "||: operand" end
       | _ => Stuck "||: operand"
       end
   | GBin op a b =>
-      doo va, t1 <- geval n env a t;
-      doo vb, t2 <- geval n env b t1;
+      doo va, t1 <- geval funcs vars n env a t;
+      doo vb, t2 <- geval funcs vars n env b t1;
       of_opt "operator: operands" (arith gops op va vb) t2
   | GFunc ps body => Done (GVClo env ps body) t
   | GCall f args =>
-      doo fv, t0 <- geval n env f t;
-      doo vs, t1 <- gevals n env args t0;
-      gapply n fv vs t1
+      doo fv, t0 <- geval funcs vars n env f t;
+      doo vs, t1 <- gevals funcs vars n env args t0;
+      gapply funcs vars n fv vs t1
   | GStructLit tname fs =>
-      doo vs, t1 <- gevals n env (map snd fs) t;
+      doo vs, t1 <- gevals funcs vars n env (map snd fs) t;
       Done (GVStruct tname (combine (map fst fs) vs)) t1
-  | GSliceLit es => doo vs, t1 <- gevals n env es t; Done (GVSlice vs) t1
+  | GSliceLit es => doo vs, t1 <- gevals funcs vars n env es t; Done (GVSlice vs) t1
   | GSel e f =>
-      doo v, t1 <- geval n env e t;
+      doo v, t1 <- geval funcs vars n env e t;
       match v with
       | GVStruct _ fs => of_opt "no such field" (lookup f fs) t1
       | _ => Stuck "selector: not a struct"
       end
   end end
-with gevals (n:nat) (env:genv) (es:list gexpr) (t:trace) {struct n} : res (list gval) :=
+with gevals (funcs:gfundefs) (vars:gvardefs) (n:nat) (env:genv) (es:list gexpr) (t:trace) {struct n} : res (list gval) :=
   match n with O => Fuel | S n =>
   match es with
   | [] => Done [] t
-  | e :: r => doo v, t1 <- geval n env e t; doo vs, t2 <- gevals n env r t1; Done (v :: vs) t2
+  | e :: r => doo v, t1 <- geval funcs vars n env e t; doo vs, t2 <- gevals funcs vars n env r t1; Done (v :: vs) t2
   end end
 (** statements: [Some v] = returned [v]; [None] = fell off the end *)
-with gexec (n:nat) (env:genv) (ss:list gstmt) (t:trace) {struct n} : res (option gval) :=
+with gexec (funcs:gfundefs) (vars:gvardefs) (n:nat) (env:genv) (ss:list gstmt) (t:trace) {struct n} : res (option gval) :=
   match n with O => Fuel | S n =>
   match ss with
   | [] => Done None t
   | GSDefine xs e :: r =>
-      doo v, t1 <- geval n env e t;
+      doo v, t1 <- geval funcs vars n env e t;
       match xs with
-      | [x] => gexec n ((x, v) :: env) r t1
+      | [x] => gexec funcs vars n ((x, v) :: env) r t1
       | _ => match v with
              | GVMulti vs => match bind xs vs env with
-                             | Some env' => gexec n env' r t1
+                             | Some env' => gexec funcs vars n env' r t1
                              | None => Stuck ":= : assignment mismatch"
                              end
              | _ => Stuck ":= : not a multi-value call"
              end
       end
-  | GSExpr e :: r => doo v, t1 <- geval n env e t; gexec n env r t1
-  | GSReturn e :: _ => doo v, t1 <- geval n env e t; Done (Some v) t1
+  | GSExpr e :: r => doo v, t1 <- geval funcs vars n env e t; gexec funcs vars n env r t1
+  | GSReturn e :: _ => doo v, t1 <- geval funcs vars n env e t; Done (Some v) t1
   | GSTypeSwitch bx e cases def :: r =>
-      doo v, t1 <- geval n env e t;
+      doo v, t1 <- geval funcs vars n env e t;
       match v with
       | GVStruct tname _ =>
           let env' := match bx with Some x => (x, v) :: env | None => env end in
           let body := match find_case tname cases with Some ss' => ss' | None => def end in
-          doo o, t2 <- gexec n env' body t1;
+          doo o, t2 <- gexec funcs vars n env' body t1;
           match o with
           | Some rv => Done (Some rv) t2
-          | None => gexec n env r t2
+          | None => gexec funcs vars n env r t2
           end
       | _ => Stuck "type switch: not a union value"
       end
   | GSSwitch bx e cases def :: r =>
-      doo v, t1 <- geval n env e t;
+      doo v, t1 <- geval funcs vars n env e t;
       match v with
       | GVStr s =>
           let env' := match bx with Some x => (x, v) :: env | None => env end in
           let body := match find_case s cases with Some ss' => ss' | None => def end in
-          doo o, t2 <- gexec n env' body t1;
+          doo o, t2 <- gexec funcs vars n env' body t1;
           match o with
           | Some rv => Done (Some rv) t2
-          | None => gexec n env r t2
+          | None => gexec funcs vars n env r t2
           end
       | _ => Stuck "switch: not a string"
       end
   | GSPanic msg :: _ => Stuck ("panic: " ++ msg)
   end end
-with gapply (n:nat) (f:gval) (vs:list gval) (t:trace) {struct n} : res gval :=
+with gapply (funcs:gfundefs) (vars:gvardefs) (n:nat) (f:gval) (vs:list gval) (t:trace) {struct n} : res gval :=
   match n with O => Fuel | S n =>
   match f with
   | GVClo env ps body =>
       match bind ps vs env with
       | Some env' =>
-          doo o, t1 <- gexec n env' body t;
+          doo o, t1 <- gexec funcs vars n env' body t;
           Done (match o with Some v => v | None => GVUnit end) t1
       | None => Stuck "call: arity"
       end
-  | GVLib fn => lib_sem gops (gapply n) fn vs t
+  | GVLib fn => lib_sem gops (gapply funcs vars n) fn vs t
   | _ => Stuck "call: not a function"
   end end.
 
-End Eval.
+
 
 Definition run_go (n:nat) (p:gprog) : outcome :=
   match gapply (g_funcs p) (g_vars p) n (GVClo [] [] (g_main p)) [] [] with
